@@ -10,6 +10,7 @@ import (
 	"fmt"
 	"sort"
 	"strings"
+	"sync"
 
 	"verifharness/internal/core"
 	"verifharness/internal/pipe"
@@ -205,6 +206,29 @@ type crashStats struct {
 	Notes          []string `json:"notes,omitempty"`
 }
 
+// totals over the crash explorations of this invocation, reported once by Extra
+var (
+	aggMu sync.Mutex
+	agg   struct{ scenarios, points, killed, sumTouched, converged, loadErr int }
+)
+
+// Extra reports the crash-exploration totals as a note (and into the evidence statistics).
+func (prop) Extra(r *core.RNG, tier string, scratch string) ([]string, []string, map[string]any) {
+	aggMu.Lock()
+	defer aggMu.Unlock()
+	if agg.scenarios == 0 {
+		return nil, nil, nil
+	}
+	stats := map[string]any{"crash_scenarios": agg.scenarios, "crash_points_killed": agg.killed, "sum_changed_at_crash_with_complete_output": agg.sumTouched,
+		"rerun_converged": agg.converged, "rerun_blocked_by_torn_generated_file": agg.loadErr}
+	var notes []string
+	notes = append(notes, fmt.Sprintf("crash exploration: %d scenario(s), %d SIGKILL points inside Execute; gengo.sum differed from its previous content at %d of them (always with every generated file complete); clean re-run converged at %d", agg.scenarios, agg.killed, agg.sumTouched, agg.converged))
+	if agg.loadErr > 0 {
+		notes = append(notes, fmt.Sprintf("beyond the statement (DESIGN section 4 #36): at %d of %d crash points the torn generated file makes the next NewContext fail until it is deleted; gengo.sum was untouched there, as C02 promises", agg.loadErr, agg.killed))
+	}
+	return nil, notes, stats
+}
+
 type observed struct {
 	pipe.Summary
 	Fault *fault      `json:"fault,omitempty"`
@@ -311,6 +335,14 @@ func (prop) Run(raw json.RawMessage, scratch string) core.Result {
 		res.Observed = o
 		res.GoViolations = append(res.GoViolations, viol...)
 		res.Tags = append(res.Tags, "crash-exploration")
+		aggMu.Lock()
+		agg.scenarios++
+		agg.points += cs.Points
+		agg.killed += cs.Killed
+		agg.sumTouched += cs.SumTouched
+		agg.converged += cs.RerunConverged
+		agg.loadErr += cs.RerunLoadError
+		aggMu.Unlock()
 		if cs.RerunLoadError > 0 {
 			res.Notes = append(res.Notes, fmt.Sprintf("after %d of %d crash points the next NewContext fails on a torn generated file (DESIGN section 4 #36; beyond the statement of C02, which holds: gengo.sum was untouched)", cs.RerunLoadError, cs.Killed))
 		}
